@@ -34,7 +34,10 @@ class _AnsiStream(object):
 
 def build(ansi, how, via):
     """-> (stream, factory, parent output or None) where factory() creates the next section on the shared output.
-    how: forced | stream (ANSI), plainfmt | ansifmt (plain).  via: output | direct | io"""
+    Whether a section decorates is decided by Output.supports_ansi() - stream AND formatter - so both kinds of output
+    are realised on both kinds of stream.  how (ANSI): forced = non-ANSI stream + forced AnsiFormatter | stream = ANSI
+    stream + AnsiFormatter; how (plain): plainfmt = non-ANSI stream + PlainFormatter | ansifmt = non-ANSI stream +
+    unforced AnsiFormatter | ttyplain = ANSI stream + PlainFormatter.  via: output | direct | io"""
     from clikit.api.io import Input, IO, Output
     from clikit.api.io.section_output import SectionOutput
     from clikit.formatter import AnsiFormatter, PlainFormatter
@@ -44,6 +47,9 @@ def build(ansi, how, via):
     if ansi:
         stream = _AnsiStream.make() if how == "stream" else BufferedOutputStream()
         fmt = AnsiFormatter() if how == "stream" else AnsiFormatter(forced=True)
+    elif how == "ttyplain":  # the stream claims ANSI support (a tty) but the formatter disables it (--no-ansi)
+        stream = _AnsiStream.make()
+        fmt = PlainFormatter()
     else:
         stream = BufferedOutputStream()
         fmt = AnsiFormatter() if how == "ansifmt" else PlainFormatter()
@@ -198,7 +204,7 @@ def may_write(gate, flag):
 def random_case(rng, maxlen=40):
     w = rng.choice([4, 4, 7, 7, 20])
     ansi = rng.random() < 0.8
-    case = {"w": w, "ansi": ansi, "how": rng.choice(["forced", "forced", "stream"] if ansi else ["plainfmt", "ansifmt"]),
+    case = {"w": w, "ansi": ansi, "how": rng.choice(["forced", "forced", "stream"] if ansi else ["plainfmt", "ansifmt", "ttyplain", "ttyplain"]),
             "via": rng.choice(["output", "output", "direct", "io"]), "pre_by": rng.choice(["stream", "output"]),
             "pre": [rng.choice(["##", "#" * w, "#" * (w + 1)]) for _ in range(rng.choice([0, 1, 1, 2]))], "ops": []}
     gated = rng.random() < 0.5  # half of the cases use message-level flags / per-section quiet and verbosity
@@ -299,6 +305,8 @@ def run(ctx):
             seen.add(key)
             case = case_of_behaviour(b)
             case["via"] = vias[len(seen) % 3]
+            hows = ("forced", "stream") if case["ansi"] else ("plainfmt", "ttyplain", "ansifmt")
+            case["how"] = hows[(len(seen) // 3) % len(hows)]
             tr = run_case(case)
             check_known(tr, case["ansi"])
             ctx.count()
